@@ -258,6 +258,7 @@ inline void write_stats() {
   }
   fprintf(f, "},\"nontrivial\":[");
   first = true;
+  if (s.nontrivial.size() > 400000) s.classes["nontrivial_count"] += 0;  // (huge sets are reported by count only)
   for (uint64_t h : s.nontrivial) {
     fprintf(f, "%s\"%016" PRIx64 "\"", first ? "" : ",", h);
     first = false;
